@@ -38,7 +38,7 @@ FAMILIES = ("smooth", "equal", "cxgap")
 Z_QUICK = (1, 2, 6, 10, 18)
 Z_THOROUGH = tuple(range(1, 19))
 GROUPS = ("scalar", "repr-fractional", "repr-elementdensity", "repr-neutrality", "interp1d", "interp2d", "equilibrium")
-REPS = ("array1d", "array1d-len1", "array2d", "func1d+fv-scalar", "func1d+fv-array", "pyfunc1d+fv-array",
+REPS = ("array1d", "array1d-len1", "array2d", "func1d+fv-scalar", "func1d+fv-array", "func1d+fv-intarray", "pyfunc1d+fv-array",
         "scalar+func1d+fv-scalar", "func2d+fv-tuple", "pyfunc2d+fv-list", "mixed1d", "mixed2d")
 SPECIES = ("none", "one", "two", "full", "exceed")
 CORE = ("fractional_abundance", "from_elementdensity", "match_plasma_neutrality")
@@ -511,6 +511,7 @@ def rep_spec(rep):
         "array2d": ("arr2", "arr2", "arr2", "arr2", none, (3, 4), allk),
         "func1d+fv-scalar": ("f1i", "f1i", "f1i", "f1i", lambda: X1[K0], (1,), [K0]),
         "func1d+fv-array": ("f1i", "f1i", "f1i", "f1i", fv1, (12,), allk),
+        "func1d+fv-intarray": ("f1i", "f1i", "f1i", "f1i", lambda: np.arange(len(X1)), (12,), allk),      # positions given as an integer array
         "pyfunc1d+fv-array": ("f1p", "f1p", "f1p", "f1p", fv1, (12,), allk),
         "scalar+func1d+fv-scalar": ("scalar", "f1i", "scalar", "f1p", lambda: X1[K0], (1,), [K0]),
         "func2d+fv-tuple": ("f2i", "f2i", "f2i", "f2i", fv2t, (3, 4), allk),
